@@ -669,3 +669,51 @@ Proof.
   - split; [vm_compute; reflexivity|]. split; [vm_compute; reflexivity|].
     eexists. split; [vm_compute; reflexivity|]. split; vm_compute; reflexivity.
 Qed.
+
+(* ---------------------------------------------------------------- a full collection keeps what is reachable *)
+Lemma lookup_in_app : forall l1 l2 a s, lookup_in l1 a = Some s -> lookup_in (l1 ++ l2) a = Some s.
+Proof.
+  unfold lookup_in. induction l1 as [|x t IH]; intros l2 a s H; cbn [find app] in *; [discriminate|].
+  destruct (N.eqb (sid x) a); [exact H | apply IH; exact H].
+Qed.
+
+Lemma lookup_in_filter_live : forall l a s, lookup_in l a = Some s -> live s = true -> lookup_in (filter live l) a = Some s.
+Proof.
+  unfold lookup_in. induction l as [|x t IH]; intros a s H Hl; cbn [find filter] in *; [discriminate|].
+  destruct (N.eqb (sid x) a) eqn:E.
+  - injection H as ->. rewrite Hl. cbn [find]. rewrite E. reflexivity.
+  - destruct (live x); [cbn [find]; rewrite E|]; apply IH; assumption.
+Qed.
+
+Lemma policy_keeps_flagged : forall chunk (b : bool) f a s,
+  lookup_in (slots f) a = Some s -> live s = true ->
+  lookup_in (slots (if b then fl_compact chunk f else fl_grow chunk f)) a = Some s.
+Proof.
+  intros chunk b f a s H Hl. destruct b; unfold fl_compact, fl_grow, fl_grow_by; cbn [slots].
+  - apply lookup_in_app. apply lookup_in_filter_live; assumption.
+  - apply lookup_in_app. exact H.
+Qed.
+
+(* C04, collections: a forced full collection of the box list (reset, mark, recount, then grow or
+   compact) keeps every slot the program can reach, with its contents, and leaves it flagged *)
+Lemma full_collection_keeps_reachable : forall c h r h2,
+  full_mark marker_par h r = Ok h2 ->
+  forall x s, reach h (all_roots r) x -> lookup h x = Some s ->
+  exists s',
+    lookup {| boxes := if Nat.ltb (c_reset_limit c) (grow_cnt (boxes h2))
+                       then fl_compact (c_chunk c) (boxes h2) else fl_grow (c_chunk c) (boxes h2);
+              vecs := vecs h2; stale := stale h2 |} x = Some s' /\
+    sval s' = sval s /\ live s' = true.
+Proof.
+  intros c h r h2 Hf x s Hx Hs. unfold full_mark in Hf.
+  destruct (mark marker_par (reset_marks h) r) as [[[h1 nb] nv]| |w] eqn:Hm; cbn [bind] in Hf; try discriminate.
+  injection Hf as <-.
+  pose proof (mark_complete_lemma _ _ _ _ _ Hm x Hx) as Hfl.
+  pose proof (mark_cont_lemma _ _ _ _ _ Hm x) as Hc.
+  unfold flagged in Hfl. unfold cont in Hc. rewrite Hs in Hc.
+  destruct (lookup h1 x) as [s1|] eqn:H1; [|discriminate].
+  exists s1. split; [|split; [exact Hc | exact Hfl]].
+  destruct x as [a|a]; cbn [lookup boxes vecs with_free slots grow_cnt] in *.
+  - apply policy_keeps_flagged; assumption.
+  - exact H1.
+Qed.
